@@ -279,7 +279,7 @@ def dbt_qualified_shapes():
     for m in ('{Q:proj}.tsp', '{Q:mindsdb}.tsn'):
         for tgt in ('{Q:int1}.t2', '{Q:int2}.t4'):
             for u in ('t7', 'sch.t8'):
-                for w in ('', ' WHERE q.a > LATEST', ' WHERE q.a > 1'):
+                for w in ('', ' WHERE q.a > LATEST'):
                     yield 'dbt-qualified-target:insert', f'INSERT INTO {tgt} (a, b) SELECT * FROM (SELECT * FROM {u} AS x1) AS q JOIN {m} AS m{w}', some
                 yield 'dbt-qualified-target:create', f'CREATE TABLE {tgt} (SELECT * FROM (SELECT * FROM {u} AS x1) AS q JOIN {m} AS m WHERE q.a > LATEST)', some
                 yield 'dbt-qualified-target:update', f'UPDATE {tgt} SET a = df.a FROM (SELECT * FROM (SELECT * FROM {u} AS x1) AS q JOIN {m} AS m WHERE q.a > 1) AS df WHERE {tgt.split(".")[-1]}.a = df.a', some
@@ -310,6 +310,6 @@ def wave6_cases():
         for tag, tpl, dns in gen():
             for dn, up in itertools.product(dns, (False, True)):
                 add(tag, tpl, dn, spec(dn, 'base'), up)
-                if not up:
+                if not up and gen is not dbt_qualified_shapes:
                     add(tag, tpl, dn, dict(spec(dn, 'base'), enc='dicts', pm='legacy'), up)
     return out
